@@ -183,7 +183,8 @@ fn sched_worker(rx: Receiver<Cmd>, tx: Sender<Value>) {
                 // 256-bit product path: (10^21 + 1) * 0.5 at 18 digits, a tie in the 19th place
                 let w = (Decimal::new_raw(1_000_000_000_000_000_000_001, 18) * Decimal::new_raw(500_000_000_000_000_000, 18)).coefficient()
                     - 500_000_000_000_000_000_000;
-                tx.send(json!([a, b, c, d, e2, f, g.parse::<i64>().unwrap_or(99), h, w as i64])).unwrap();
+                let dv = (Decimal::new_raw(3, 18) / Decimal::TWO).coefficient();            // 1.5e-18: the `/` operator
+                tx.send(json!([a, b, c, d, e2, f, g.parse::<i64>().unwrap_or(99), h, w as i64, dv])).unwrap();
             }
             Cmd::Spawn(crx, ctx) => {
                 children.push(std::thread::spawn(move || sched_worker(crx, ctx)));
